@@ -97,6 +97,8 @@ StateFails(e) ==
               /\ Cardinality(DOMAIN s.hindex) = Len(s.hnames)
               /\ \A i \in 2..Len(s.hprio) : s.hprio[i \div 2] <= s.hprio[i])
     \cup Fail("C20_Converges", e.ev # "DrainFailed")
+    \* the run with injected faults ends with the same Jobs as the same workload without them
+    \cup Fail("C20_SameOutcome", e.ev = "Twin" => Range(e.twina) = Range(e.twinb))
     \* objects in the informer cache are shared by all reconciler workers; a Job built from a JobConfig the controller wrote into
     \* can carry another worker's schedule time (the harness cannot interleave inside a segment, so it checks the enabling condition)
     \cup Fail("C02_SharedCacheIntact", s.mutated = <<>>)
